@@ -98,7 +98,7 @@ def nextFileId (s : State) : State × Int :=
   ({ s with maxFileId := v }, v)
 
 /-- `GenNodeArray::Check(index)` -/
-def checkCap (bufsize index : Nat) : Nat := if index ≥ bufsize then (index + 1) * 2 else bufsize
+def checkCap (bufsize index : Nat) : Nat := if index ≥ bufsize then growTo index else bufsize
 
 /-- `MgrNodeArray::Append` = `Insert(gn,_count)`: grow if needed, store, assign `ArrayIndex` -/
 def arrayAppend (s : State) (n : Node) : State :=
